@@ -12,6 +12,7 @@ import (
 	"io"
 	"net"
 	"runtime"
+	"strings"
 	"sync"
 	"sync/atomic"
 	"time"
@@ -74,8 +75,11 @@ type ConnPlan struct {
 	HandshakeErr  []byte        // ERR payload sent instead of the handshake
 	CloseAtAccept bool          // close right after accept
 	StallAccept   chan struct{} // if non-nil: wait for it (or peer close) before the handshake
-	QueryErr      []byte        // ERR payload in answer to the first COM_QUERY
-	OnQuery       func(n int)   // called with the 1-based number of each COM_QUERY before it is answered
+	// ERR payload in answer to the statement that announces checksum awareness (the one naming
+	// binlog_checksum, whatever its case or position among the session's statements; every other
+	// statement - a replica may send further session settings before the dump - is answered with OK)
+	QueryErr []byte
+	OnQuery  func(n int) // called with the 1-based number of each COM_QUERY before it is answered
 	// Chop != 0: everything the master writes reaches the socket in pieces of pseudo-random sizes (1 byte ..
 	// 16 KiB, seeded by this value) with occasional yields in between, so that packet headers and bodies
 	// arrive split over several reads on the replica's side
@@ -89,23 +93,32 @@ type ConnPlan struct {
 	Gate func(i int, s *Step) bool
 
 	// results
-	mu         sync.Mutex
-	Commands   []Command
-	written    int32         // steps fully written
-	started    int32         // steps whose write has begun
-	PeerClosed chan struct{} // closed when the replica's side of the socket is seen closed
-	Finished   chan struct{} // closed when the connection handler has returned
-	Err        error         // harness-level problem talking to the replica
-	release    chan struct{}
-	relOnce    sync.Once
-	conn       net.Conn
-	weClosed   int32
-	peerFirst  int32
-	accepted   int32
+	mu           sync.Mutex
+	Commands     []Command
+	written      int32         // steps fully written
+	started      int32         // steps whose write has begun
+	PeerClosed   chan struct{} // closed when the replica's side of the socket is seen closed
+	Finished     chan struct{} // closed when the connection handler has returned
+	Err          error         // harness-level problem talking to the replica
+	release      chan struct{}
+	relOnce      sync.Once
+	conn         net.Conn
+	weClosed     int32
+	peerFirst    int32
+	accepted     int32
+	queryErrSent bool
 }
 
 // Accepted reports whether a connection was ever handed to this plan.
 func (p *ConnPlan) Accepted() bool { return atomic.LoadInt32(&p.accepted) == 1 }
+
+// QueryErrSent reports whether the QueryErr answer was actually given (a replica that never announces
+// checksum awareness is never refused).
+func (p *ConnPlan) QueryErrSent() bool {
+	p.mu.Lock()
+	defer p.mu.Unlock()
+	return p.queryErrSent
+}
 
 func (p *ConnPlan) isReleased() bool {
 	select {
@@ -447,7 +460,6 @@ func (p *ConnPlan) serve(c net.Conn) {
 		fail(nil)
 		return
 	}
-	firstQuery := true
 	for {
 		_, b, err := readPacket(c)
 		if err != nil {
@@ -477,12 +489,14 @@ func (p *ConnPlan) serve(c net.Conn) {
 				p.mu.Unlock()
 				p.OnQuery(nq)
 			}
-			if firstQuery && p.QueryErr != nil {
+			if p.QueryErr != nil && strings.Contains(strings.ToLower(cmd.Query), "binlog_checksum") {
+				p.mu.Lock()
+				p.queryErrSent = true
+				p.mu.Unlock()
 				writePacket(c, 1, p.QueryErr)
 			} else {
 				writePacket(c, 1, okPacket)
 			}
-			firstQuery = false
 		case 0x12:
 			if len(b) >= 11 {
 				cmd.Pos = binary.LittleEndian.Uint32(b[1:])
